@@ -257,7 +257,7 @@ def object_set(tier):
                     and t[1][0] not in ("var", "const")][:: (1 if tier == "thorough" else 7)]
     for t in derived_src:
         e = A.build(t)
-        hash(e); repr(e)
+        A.outcome(lambda: (hash(e), repr(e)))     # (whether hashing / printing works is judged on the object set)
         vname = sorted(M.variables(t))[0]
         for thunk in (lambda: Partial(e, vname).as_expression(), lambda: Differential(e, compute_early=True).component(vname).as_expression()):
             o = A.construct(thunk)
